@@ -22,7 +22,7 @@ PY = "/venv/bin/python"
 
 def scratch(patch=None):
     dest = tempfile.mkdtemp(prefix="seeded_", dir="/tmp")
-    for name in ("tradingenv", "tests", "setup.py", "setup.cfg", "pyproject.toml", "README.md", "requirements.txt"):
+    for name in ("tradingenv", "tests", "notebooks", "setup.py", "setup.cfg", "pyproject.toml", "README.md", "requirements.txt", "changelog.md", "LICENSE.txt"):
         src = os.path.join("/repo", name)
         if os.path.isdir(src):
             shutil.copytree(src, os.path.join(dest, name), ignore=shutil.ignore_patterns("__pycache__"))
@@ -38,13 +38,19 @@ def scratch(patch=None):
 
 def run_demo(dest, demo):
     env = dict(os.environ, PYTHONPATH=dest, PYTHONDONTWRITEBYTECODE="1")
-    p = subprocess.run([PY, os.path.abspath(demo)], cwd=dest, env=env, capture_output=True, text=True, timeout=600)
+    # the demos were written to live in <checkout>/out/: run a copy from there
+    os.makedirs(os.path.join(dest, "out"), exist_ok=True)
+    local = os.path.join(dest, "out", "demo.py")
+    shutil.copy(os.path.abspath(demo), local)
+    p = subprocess.run([PY, local], cwd=dest, env=env, capture_output=True, text=True, timeout=600)
+    shutil.rmtree(os.path.join(dest, "out"), ignore_errors=True)      # keep it out of pytest's doctest collection
     return p.returncode, (p.stdout + p.stderr)[-600:]
 
 
 def run_suite(dest):
     env = dict(os.environ, PYTHONDONTWRITEBYTECODE="1")
-    p = subprocess.run([PY, "-m", "pytest", "-q", "-p", "no:cacheprovider", "--timeout=900", "--no-cov", "tests"], cwd=dest, env=env,
+    # same collection as the pinned baseline command: tests/ plus the doctests of the package (setup.cfg addopts)
+    p = subprocess.run([PY, "-m", "pytest", "-q", "-p", "no:cacheprovider", "--timeout=900", "--no-cov"], cwd=dest, env=env,
                        capture_output=True, text=True)
     tail = [l for l in p.stdout.splitlines() if " passed" in l or " failed" in l]
     failed = sorted(l.split(" ")[1] for l in p.stdout.splitlines() if l.startswith("FAILED "))
